@@ -200,9 +200,9 @@ static void qcheck() {
     if (X.cancel_issued) viol("cancelled-routine-not-terminated-when-idle");
     const char *where = "";
     switch (X.blocked) {
-      case RECV: if (!g.ch->queue_.empty()) { where = queued(cont(g.ch->token_), X.tok) ? ":waiter-still-queued" : ":waiter-not-queued"; viol(std::string("lost-wakeup-channel-nonempty-receiver-suspended") + where); } break;
-      case LOCK: if (g.mu->hold_token_.isNull()) { where = queued(cont(g.mu->wait_tokens_), X.tok) ? ":waiter-still-queued" : ":waiter-not-queued"; viol(std::string("lost-wakeup-mutex-free-waiter-suspended") + where); } break;
-      case ACQ: if (g.sem->count_ > 0) { where = queued(cont(g.sem->token_), X.tok) ? ":waiter-still-queued" : ":waiter-not-queued"; viol(std::string("lost-wakeup-semaphore-positive-waiter-suspended") + where); } break;
+      case RECV: if (g.sent - g.nrecv > 0) {     /* non-empty according to the MODEL: values sent and not yet received */ where = queued(cont(g.ch->token_), X.tok) ? ":waiter-still-queued" : ":waiter-not-queued"; viol(std::string("lost-wakeup-channel-nonempty-receiver-suspended") + where); } break;
+      case LOCK: if (g.holders == 0) {     /* free according to the MODEL (nobody whose lock() succeeded still holds it), not according to the implementation's own bookkeeping */ where = queued(cont(g.mu->wait_tokens_), X.tok) ? ":waiter-still-queued" : ":waiter-not-queued"; viol(std::string("lost-wakeup-mutex-free-waiter-suspended") + where); } break;
+      case ACQ: if (g.init + g.rel - g.acq > 0) {     /* positive according to the MODEL: initial + releases - successful acquisitions */ where = queued(cont(g.sem->token_), X.tok) ? ":waiter-still-queued" : ":waiter-not-queued"; viol(std::string("lost-wakeup-semaphore-positive-waiter-suspended") + where); } break;
       case BWAIT: if (g.bposted[r]) viol("lost-wakeup-broadcast-posted-waiter-suspended"); break;
       case CWAIT: if (g.cwaiter == r && g.csat) viol("lost-wakeup-condition-satisfied-waiter-suspended"); break;
       case JOIN1: if (g.R[X.barg].finished) viol("join-target-finished-joiner-suspended"); break;
